@@ -2,6 +2,7 @@ import TaskctlVerif.Proofs.SchedFair
 import TaskctlVerif.Props.C02
 import TaskctlVerif.Model.SchedMulti
 import TaskctlVerif.Props.C01
+import TaskctlVerif.Proofs.SchedLoops
 /-!
 # C03 — every pipeline run terminates and runs each eligible stage exactly once
 
@@ -426,3 +427,97 @@ theorem C03_witness_cas_two_loops :
     (mrun true minit [.visit 0 0, .visit 1 0, .start 0, .start 1]).starts 0 = 1 := by decide
 
 end SchedMulti
+
+/-! ## Several loops over one graph, in full (`Model/SchedLoops.lean`) -/
+namespace SchedLoops
+open Sched
+
+/-- what the compare-and-swap step does to the start counters and goroutine states -/
+theorem ldecide_cases (c : Cfg) (σ : LSt) (l : Nat) :
+    ((lstep c σ (.decide l)).starts = σ.starts ∧ (lstep c σ (.decide l)).g = σ.g) ∨
+    ∃ t, σ.status t = .waiting ∧ (lstep c σ (.decide l)).starts = upd σ.starts t (σ.starts t + 1) ∧
+      (lstep c σ (.decide l)).g = upd σ.g t .inRun := by
+  simp only [lstep]
+  split
+  · rename_i t ready hpc
+    split
+    · rename_i hc
+      right
+      refine ⟨t, ?_, rfl, rfl⟩
+      simp only [Bool.and_eq_true, beq_iff_eq] at hc
+      exact hc.2
+    · exact .inl ⟨rfl, rfl⟩
+  · exact .inl ⟨rfl, rfl⟩
+
+def LOnce (σ : LSt) : Prop := ∀ s, σ.starts s = if σ.g s = .none then 0 else 1
+
+theorem lonce_step (c : Cfg) (σ : LSt) (a : LAct) (hi : LInv c σ) (h : LOnce σ) : LOnce (lstep c σ a) := by
+  intro s
+  have hs := h s
+  obtain ⟨g_none, g_run, run_g, g_after, g_fin, started, skip_c, err_c, chk⟩ := hi
+  cases a with
+  | visit l t =>
+    have e1 : (lstep c σ (.visit l t)).starts = σ.starts := by
+      simp only [lstep]; repeat' split
+      all_goals rfl
+    have e2 : (lstep c σ (.visit l t)).g = σ.g := by
+      simp only [lstep]; repeat' split
+      all_goals rfl
+    rw [e1, e2]; exact hs
+  | read l =>
+    have e1 : (lstep c σ (.read l)).starts = σ.starts := by
+      simp only [lstep]; repeat' split
+      all_goals rfl
+    have e2 : (lstep c σ (.read l)).g = σ.g := by
+      simp only [lstep]; repeat' split
+      all_goals rfl
+    rw [e1, e2]; exact hs
+  | decide l =>
+    rcases ldecide_cases c σ l with he | ⟨t, hw, he⟩
+    · rw [he.1, he.2]; exact hs
+    · have hg : σ.g t = .none := by
+        have := lgcases σ t
+        have h1 := g_run t
+        have h2 := g_after t
+        have h3 := g_fin t
+        grind
+      have ht := h t
+      rw [he.1, he.2]
+      by_cases hst : s = t
+      · subst hst; simp [upd_apply, ht, hg]
+      · simp [upd_apply, hst]; exact hs
+  | ret t ok =>
+    simp only [lstep]
+    split
+    · split <;> (by_cases hst : s = t
+                 · subst hst; simp_all [upd_apply]
+                 · simp [upd_apply, hst]; exact hs)
+    · exact hs
+  | post t =>
+    simp only [lstep]
+    split
+    · split <;> (by_cases hst : s = t
+                 · subst hst; simp_all [upd_apply]
+                 · simp [upd_apply, hst]; exact hs)
+    · exact hs
+  | cancel => exact hs
+
+/-- **C03 with several loops over one graph, in the full model**: every loop with its own condition
+evaluations and dependency reads, any interleaving - no stage is started twice, and it has been
+started once exactly when its goroutine exists -/
+theorem C03_loops_once (c : Cfg) (as : List LAct) (s : Nat) :
+    (lrun c linit as).starts s ≤ 1 ∧
+      ((lrun c linit as).starts s = 1 ↔ (lrun c linit as).g s ≠ .none) := by
+  have key : LOnce (lrun c linit as) := by
+    suffices ∀ σ, LInv c σ → LOnce σ → LOnce (lrun c σ as) from
+      this _ (linv_init c) (by intro s; simp [linit])
+    induction as with
+    | nil => intro σ _ h; exact h
+    | cons a as ih => intro σ h1 h2; exact ih _ (linv_step c σ a h1) (lonce_step c σ a h1 h2)
+  have := key s
+  constructor
+  · rw [this]; split <;> omega
+  · rw [this]; split <;> simp_all
+
+end SchedLoops
+
